@@ -50,6 +50,13 @@ Fixpoint paced (now : N) (script : list (N * bytes)) : Prop :=
   | x :: rest => (now <= fst x)%N /\ paced (fst x) rest
   end.
 
+(* ... and the peer's own close comes after its last chunk *)
+Fixpoint paced_until (now : N) (script : list (N * bytes)) (tf : N) : Prop :=
+  match script with
+  | [] => (now <= tf)%N
+  | x :: rest => (now <= fst x)%N /\ paced_until (fst x) rest tf
+  end.
+
 (* instants and sizes of the chunks, without their content *)
 Definition shape (script : list (N * bytes)) : list (N * nat) := map (fun x => (fst x, length (snd x))) script.
 
@@ -60,5 +67,12 @@ Definition shape (script : list (N * bytes)) : list (N * nat) := map (fun x => (
 Definition only_reads_until (D : N) (tr : list action) : Prop :=
   exists reads, tr = ASetDeadline D :: reads ++ [ATimeout D; AReturn D] /\
                 Forall (fun a => exists t n, a = ARead t n /\ (t < D)%N) reads.
+
+(* the trace of a connection that the PEER ends at instant tf (FIN or RST), before the deadline: the
+   station only reads, the Read after the peer's last byte reports the peer's close, and the handler
+   returns at that instant - not before, and without having written anything. *)
+Definition only_reads_until_peer_close (D tf : N) (e : rerr) (tr : list action) : Prop :=
+  exists reads, tr = ASetDeadline D :: reads ++ [AReadErr tf e; AReturn tf] /\
+                Forall (fun a => exists t n, a = ARead t n /\ (t <= tf)%N) reads.
 
 Definition non_reads (tr : list action) : list action := filter (fun a => negb (is_read a)) tr.
